@@ -7,6 +7,6 @@ require (
 	golang.org/x/sys v0.40.0
 )
 
-require github.com/coregx/ahocorasick v0.3.0 // indirect
+require github.com/coregx/ahocorasick v0.3.0
 
 replace github.com/coregx/coregex => /repo
